@@ -82,19 +82,20 @@ ASSUMPTIONS = [
 ]
 
 DIRS = ["alpha", "bravo", "charlie"]
-TITLES = ["Title_one", "Title_two", "T3"]
+TITLES = ["Title_one", "Title_two", "T3", "Tamp", "Tbrace", "Tutf", "Tlong", "Tjson", "T0x", "Uu"]   # c17_world.TITLE_TOKENS
 STEMS = ["va", "vb", "aa", "ea", "tx", "va_01", "vb_01"]
 SUFFIXES = [".mp4", ".mp4", ".mp4", ".m4v"]
 KIND_WEIGHTS = [("v1", 3), ("v2", 2), ("v9", 1), ("a1", 2), ("ev", 1.5), ("e2", 1), ("eb", 1), ("ea", 1), ("vz", 1),
-                ("s1", .5), ("jk", .5), ("em", .15), ("ft", .7), ("fa", .25), ("fv", .15), ("fe", .25)]
+                ("v3", .6), ("vn", .6), ("a4", .6), ("s1", .5), ("jk", .5), ("em", .15), ("ft", .7), ("fa", .25), ("fv", .15), ("fe", .25)]
 SHARED_KID_KINDS = ["ev", "e2", "eb"]          # encrypted payloads that use one and the same key id
 KIDS = ["1ab45440532c439994dc5c5ad9584bac", "0f1e2d3c4b5a69788796a5b4c3d2e1f0", "aa" * 16]
 # the form of the stream defaults page (/stream/<spk>/defaults): every field it offers with legal values of every
 # kind (written from the page and the option documentation, not from dashlive's registry)
 DEFAULTS_FORM = {
     "start": ["now", "today", "month", "year", "epoch", "2024-01-01T00:00:00Z", "2023-06-01T12:30:00+02:00",
-              "2022-02-28T23:59:59.5Z"],
-    "depth": ["0", "1", "60", "3600"], "mup": ["-1", "0", "1", "30"], "leeway": ["0", "5", "100"],
+              "2022-02-28T23:59:59.5Z", "2024-02-29T23:59:59.999999-03:30", "2021-12-31T23:59:59+12:45",
+              "1970-01-01T00:00:00-00:30", "2000-01-01T00:00:00+14:00", ""],
+    "depth": ["0", "1", "60", "3600", "5000000", ""], "mup": ["-1", "0", "1", "30", ""], "leeway": ["0", "5", "100", ""],
     "time": ["xsd", "iso", "ntp", "http-ntp", "head", "direct", "none"], "ntp_servers": ["europe-ntp", "google"],
     "abr": ["0", "1"], "acodec": ["mp4a", "ec-3", "any"], "tcodec": ["stpp", "wvtt"], "tlang": ["eng"],
     "timeline": ["0", "1"], "base": ["0", "1"], "patch": ["0", "1"], "bugs": ["saio"],
@@ -115,7 +116,7 @@ DEFAULTS_FORM = {
 }
 DEFAULTS_ILLEGAL = [("start", "not-a-date"), ("depth", "abc"), ("mup", "x"), ("leeway", "q")]
 MPS_NAMES = ["mpsone", "mpstwo", "mp"]
-MPS_TITLES = ["MPS_one", "MPS_two", "M2"]
+MPS_TITLES = ["MPS_one", "MPS_two", "M2", "Tamp", "Tutf", "Xy", "Uu"]     # M2, Xy, Uu: shorter than 3 characters
 PIDS = ["p1", "p2", "p3"]
 TRACKS = [1, 2, 3, 4, 5, 9]
 SPEC_TRACKS = [0, 1, 2, 3, 4, 5, 9, 4294967295]      # track ids named by a Period (any number is accepted)
@@ -239,7 +240,8 @@ def progress_op(rng, rows):
             return ("ix", un[0]["pk"])
         ind = [f for f in mine if f["indexed"]]
         if ind and not s["tref"]:
-            return ("es", s["pk"], s["dir"], s["title"], rng.choice(ind)["name"])
+            import c17_world
+            return ("es", s["pk"], s["dir"], c17_world.title_token(s["title"]), rng.choice(ind)["name"])
     if not rows["mps"] and any(s["tref"] for s in streams):
         return ("am", rng.choice(MPS_NAMES[:2]), rng.choice(MPS_TITLES[:2]), gen_periods(rng, rows, [], []))
     if len(streams) < 2:
@@ -411,7 +413,8 @@ def gen_op(rng, rows):
         used = {m["name"] for m in mps}
         free = [n for n in MPS_NAMES[:2] if n not in used]
         name = rng.choice(free) if free and rng.random() < .8 else rng.choice(MPS_NAMES)
-        return ("am", name, rng.choice(MPS_TITLES[:2]) if rng.random() < .9 else "M2", gen_periods(rng, rows, [], periods))
+        title = rng.choice(["MPS_one", "MPS_two", "Tamp", "Tutf"]) if rng.random() < .9 else rng.choice(["M2", "Xy", "Uu"])
+        return ("am", name, title, gen_periods(rng, rows, [], periods))
     if k == "mm":
         cur = rng.choice(mps) if mps and rng.random() < .9 else None
         url = cur["name"] if cur else rng.choice(MPS_NAMES[:2] + ["nosuchmps"])
@@ -469,6 +472,11 @@ def step_failures(w, before, status_before, op, res, rows, canon_changed):
     return fails, status
 
 
+def actor_of_step(i: int) -> str:
+    """two authorised users take turns (separate sessions, JWTs and CSRF cookies): every third request is the admin's"""
+    return "admin" if i % 3 == 2 else "media"
+
+
 def run_history(w, ops, gen=None, oracle=True):
     """execute a history on the real application from the empty store.
     ops: list of operations, or None with gen=(rng, n) to generate them on the fly.
@@ -483,6 +491,7 @@ def run_history(w, ops, gen=None, oracle=True):
     for i in range(n):
         op = ops[i] if ops is not None else gen_op(gen[0], rows)
         before = rows
+        w.use_actor(actor_of_step(i))
         res, st = w.apply(op)
         rows = w.rows()
         canon = w.canonical(rows)
@@ -512,11 +521,13 @@ def first_failure(w, ops, key=None):
 def fails_at_end(w, ops, key):
     """run the history without the oracle, then evaluate the oracle on the last step only"""
     w.reset()
-    for op in ops[:-1]:
+    for i, op in enumerate(ops[:-1]):
+        w.use_actor(actor_of_step(i))
         w.apply(op)
     before = w.rows()
     w.service_failures(before)
     status_before = w.last_status
+    w.use_actor(actor_of_step(len(ops) - 1))
     res, _ = w.apply(ops[-1])
     rows = w.rows()
     fails, _ = step_failures(w, before, status_before, ops[-1], res, rows, True)
@@ -641,6 +652,54 @@ def evaluate(w, histories, ch: Channel, t_deadline=None):
                    "final_state": final.split("|", 1)[-1][:300]}, limit=3)
 
 
+def grid_histories(thorough: bool):
+    """fixed histories (the same on every run, whatever the seed): every field of the stream defaults page one value
+    at a time on a store with two streams and a multi-period stream; every payload shape as timing reference and as
+    a Period; list sizes 0-3 and numeric boundaries of the multi-period API"""
+    P = lambda pk, pid, s, o, tr, st=0, du=0, fits=True: (pk, pid, s, o, tuple(tr), st, du, fits)   # noqa: E731
+    base = [("as", "alpha", "Tamp"), ("up", 1, "va", ".mp4", "v1"), ("ix", 1), ("up", 1, "aa", ".mp4", "a1"), ("ix", 2),
+            ("up", 1, "ea", ".mp4", "ev"), ("ix", 3), ("es", 1, "alpha", "Tbrace", "va"),
+            ("as", "bravo", "Tutf"), ("up", 2, "vb", ".mp4", "v2"), ("ix", 4), ("es", 2, "bravo", "Tlong", "vb"),
+            ("am", "mpsone", "Tamp", (P(None, "p1", 1, 1, [1, 2]), P(None, "p2", 2, 2, [1])))]
+    out = []
+    # 1. stream defaults: one field at a time (quick: one value of each pool, thorough: all), then all together
+    h = list(base)
+    for name in sorted(DEFAULTS_FORM):
+        vals = DEFAULTS_FORM[name]
+        for v in (vals if thorough else vals[len(h) % len(vals):][:1]):
+            form = {name: v}
+            if name.startswith("ping__") or name.startswith("scte35__"):
+                form["events"] = name.split("__")[0]
+            if name.endswith("__drmloc"):
+                form["drm_" + name.split("__")[0]] = "on"
+            h.append(("sd", 1 + (len(h) % 2), tuple(sorted(form.items())), True))
+    h.append(("sd", 1, tuple(sorted({n: v[0] for n, v in DEFAULTS_FORM.items()}.items())), True))
+    for n, v in DEFAULTS_ILLEGAL:
+        h.append(("sd", 2, ((n, v),), False))
+    h.append(("sd", 1, (), True))
+    out.append(h)
+    # 2. payload shapes: each as the only video of a stream, as timing reference, as a Period
+    for kind in ("v3", "vn", "fv", "ev", "vz"):
+        out.append([("as", "alpha", "T0x"), ("up", 1, "va", ".mp4", kind), ("ix", 1), ("up", 1, "aa", ".mp4", "a4"), ("ix", 2),
+                    ("up", 1, "tx", ".mp4", "ft"), ("ix", 3), ("es", 1, "alpha", "Tjson", "va"),
+                    ("am", "mpsone", "MPS_one", (P(None, "p1", 1, 1, [1, 3, 4]),)),
+                    ("mm", "mpsone", 1, "mpsone", "Uu", ()), ("mm", "mpsone", 1, "mpsone", "MPS_one", (P(1, "p1", 1, 0, [1]),)),
+                    ("es", 1, "alpha", "Tjson", "aa"), ("es", 1, "alpha", "Tjson", "tx"), ("es", 1, "alpha", "Tjson", "va"),
+                    ("em", 1, 2, 3), ("dm", 1, 3, 1), ("ds", 1, 0)])
+    # 3. list sizes and numeric boundaries of the multi-period API
+    out.append(base[:12] + [
+        ("am", "mpsone", "MPS_one", ()),
+        ("am", "mpstwo", "MPS_two", (P(None, "p1", 1, 0, []),)),
+        ("mm", "mpstwo", 2, "mpstwo", "MPS_two", (P(None, "p2", 2, 999, [0]), P(None, "p3", 1, 1, [1, 4294967295]))),
+        ("mm", "mpstwo", 2, "mpstwo", "MPS_two", (P(2, "p2", 2, 2, [0, 1, 9]), P(3, "p3", 1, 3, [1, 2, 3]), P(1, "p1", 2, 1, [1]))),
+        ("mm", "mpsone", 1, "mpsone", "MPS_one", (P(None, "p1", 1, 1, [1], 0, 500), P(None, "p2", 1, 2, [1], 4_000_000, 12_000_000),
+                                                    P(None, "p3", 2, 3, [1], 0, 20_000_000))),
+        ("mm", "mpsone", 1, "mpsone", "MPS_one", (P(None, "p9", 2, 4, [1], 4_000_000, 16_000_001, False),)),
+        ("mm", "mpsone", 1, "abc", "abc", ()), ("mm", "abc", 1, "ab", "abc", ()), ("mm", "abc", 1, "mpstwo", "abc", ()),
+        ("xm", "abc"), ("ds", 2, 1), ("ds", 1, 0)])
+    return out
+
+
 def corpus_histories():
     d = common.CORPUS / "C17"
     out = []
@@ -665,12 +724,16 @@ def channels(ctx):
         return
     rng = ctx.rng("store_hist")
     t0 = time.time()
-    budget = 90 if not ctx.thorough else 720      # safety net only: the counts below are what normally ends the loop
-    n_hist = ctx.scale(110, 160)
+    budget = 140 if not ctx.thorough else 780      # safety net only: the counts below are what normally ends the loop
+    n_hist = ctx.scale(80, 150)
     max_len = 12 if not ctx.thorough else 60
     hs = []
     for ops in corpus_histories():
         hs.append(run_history(w, ops))
+    ch.count("corpus_histories", len(hs))
+    for ops in grid_histories(ctx.thorough):
+        hs.append(run_history(w, ops))
+        ch.count("grid_history_steps", len(ops))
     for i in range(n_hist):
         if time.time() - t0 > budget:
             ch.count("stopped_by_time_budget")
@@ -689,15 +752,19 @@ def edit_refused_channel(w):
     language argument): the refusal is a controlled answer and leaves rows and blob folder exactly as they were"""
     import appboot
     ch = Channel("edit_refused", rule=(
-        "EditMedia.post requests that cannot be carried out - the clock past 2040-02-06 (tkhd version 0 keeps its "
-        "modification time in 32 bits) and language tags that cannot be packed into mdhd (2 letters, 1 letter, empty) - "
-        "on an indexed video and an indexed audio file: the answer is < 500, every row and every file is unchanged "
-        "(no half-written new blob file), the store is consistent and still served; non-trivial = every case"))
+        "EditMedia.post requests at the limits - the clock past 2040-02-06 (tkhd version 0 keeps its modification time "
+        "in 32 bits), language tags that cannot be packed into mdhd (2 letters, 1 letter, empty), track ids 0, 2^31, "
+        "2^32-1, 2^32 - on an indexed video and an indexed audio file: the answer is < 500; when the edit is refused "
+        "every row and every file is unchanged (no half-written new blob file); either way the store is consistent and "
+        "still served; non-trivial = every case"))
+    w.use_actor("media")
     setup = [("as", "alpha", "Title_one"), ("up", 1, "va", ".mp4", "v1"), ("ix", 1), ("up", 1, "aa", ".mp4", "a1"),
              ("ix", 2), ("es", 1, "alpha", "Title_one", "va")]
     cases = [(mf, clock, track, lang) for mf in (1, 2) for clock, track, lang in (
         ("2041-03-01T00:00:00Z", 5, None), ("2106-02-08T00:00:00Z", 5, "eng"), (None, 5, "en"), (None, 1, "e"),
-        (None, 2, ""))]
+        (None, 2, ""),
+        # track ids at the limits of the 32 bit fields (tkhd.track_ID, mvhd.next_track_ID = id + 1)
+        (None, 0, None), (None, 4294967295, None), (None, 4294967296, None), (None, 2147483648, None))]
     for mf, clock, track, lang in cases:
         ch.evaluations += 1
         w.reset()
@@ -713,6 +780,7 @@ def edit_refused_channel(w):
                     w._login()
                     r = w.c.post(f"/stream/1/{mf}/edit", data=data)
                 w._login()
+                w.actors["media"] = (w.c, w.jwt, w.csrf_key)
             else:
                 r = w.c.post(f"/stream/1/{mf}/edit", data=data)
         except Exception as e:
@@ -725,6 +793,8 @@ def edit_refused_channel(w):
         if r.status_code >= 500:
             problems.append(f"POST /stream/1/{mf}/edit -> {r.status_code}")
         refused = r.status_code != 302 or "/edit" in (r.headers.get("Location") or "")
+        if not refused:
+            w.uploaded["va" if mf == 1 else "aa"] = None      # rewritten by the server: compare with the disk
         if refused and w.canonical(after) != w.canonical(before):
             problems.append("a refused edit changed rows or files: " + w.canonical(after))
         problems += w.inv_failures(after) + w.service_failures(after)
